@@ -114,6 +114,11 @@ class Replacer(Builder):
       # If the replacement text is shorter or longer than the original, insert a new pair of
       # offsets corresponding to the patch's end position in the input and output text.
       if len(in_patch.new_text) != in_patch.end - in_patch.start:
+        if not in_patch.new_text:
+          # Text was deleted: also remember where the deleted text started. An output range that
+          # ends exactly here ends before the deleted text (see _get_input_end_pos).
+          self._input_offsets.append(in_patch.start)
+          self._output_offsets.append(out_pos)
         self._input_offsets.append(in_pos)
         self._output_offsets.append(out_pos)
 
@@ -126,7 +131,7 @@ class Replacer(Builder):
   def map_back_patch(self, patch):
     validate_patch(self._output_text, patch)
     in_start = self.get_input_pos(patch.start)
-    in_end = self.get_input_pos(patch.end)
+    in_end = self._get_input_end_pos(patch.end) if patch.end > patch.start else in_start
     in_patch = make_patch(self._in_builder.get_text(), in_start, in_end, patch.new_text)
     return self._in_builder.map_back_patch(in_patch)
 
@@ -135,6 +140,17 @@ class Replacer(Builder):
     index = bisect.bisect_right(self._output_offsets, out_pos) - 1
     offset = out_pos - self._output_offsets[index]
     return self._input_offsets[index] + offset
+
+  def _get_input_end_pos(self, out_pos):
+    """
+    Like get_input_pos(), for the end of a non-empty output range. The two differ only where text
+    was deleted at out_pos: a range starting there starts after the deleted text, a range ending
+    there ends before it.
+    """
+    index = bisect.bisect_left(self._output_offsets, out_pos)
+    if index < len(self._output_offsets) and self._output_offsets[index] == out_pos:
+      return self._input_offsets[index]
+    return self.get_input_pos(out_pos)
 
   def map_back_offset(self, out_pos):
     """
